@@ -30,8 +30,26 @@ fn shared() -> &'static Mutex<Shared> {
     S.get_or_init(|| Mutex::new(Shared { behaviours: HashMap::new(), log: Vec::new() }))
 }
 
+/// Gate for the `busy` schedule: handlers of `/__gate` block here (occupying a thread of the blocking pool).
+fn busy_gate() -> &'static (Mutex<(usize, bool)>, std::sync::Condvar) {
+    static G: OnceLock<(Mutex<(usize, bool)>, std::sync::Condvar)> = OnceLock::new();
+    G.get_or_init(|| (Mutex::new((0, false)), std::sync::Condvar::new()))
+}
+
 fn handler(req: Request) -> Response {
     let path = req.url.path().to_string();
+    if path == "/__gate" {
+        let (m, cv) = busy_gate();
+        let mut g = m.lock().unwrap();
+        g.0 += 1;
+        cv.notify_all();
+        let deadline = std::time::Instant::now() + Duration::from_secs(10);
+        while !g.1 && std::time::Instant::now() < deadline {
+            g = cv.wait_timeout(g, Duration::from_millis(100)).unwrap().0;
+        }
+        g.0 -= 1;
+        return Response::text(200, "gate");
+    }
     let body_desc = if req.body.is_pending() {
         "P".to_string()
     } else {
@@ -231,7 +249,7 @@ pub fn case(ctx: &mut Ctx, tag: &str, small: &str, cache: &str, schedule: &str, 
         let all: Vec<u8> = specs.iter().flat_map(|s| s.0.clone()).collect();
         // read concurrently with writing: a reset caused by writing to a closed connection may discard
         // received data that has not been read yet
-        let reader = if sched != "pingpong" && sched != "hold" {
+        let reader = if sched != "pingpong" && sched != "hold" && sched != "linger" && sched != "wait100" {
             let mut rc = client.try_clone().unwrap();
             Some(std::thread::spawn(move || read_all(&mut rc)))
         } else {
@@ -259,6 +277,74 @@ pub fn case(ctx: &mut Ctx, tag: &str, small: &str, cache: &str, schedule: &str, 
                     if client.write_all(bytes).is_err() { break; }
                     if !read_one_response(&mut client, &mut transcript) { break; }
                 }
+            }
+            "linger" => {
+                // one request at a time on a connection that stays open: an upload's file must be gone once its
+                // request has been answered, not only when the connection ends
+                for (bytes, _, _) in &specs {
+                    if client.write_all(bytes).is_err() { break; }
+                    if !read_one_response(&mut client, &mut transcript) { break; }
+                    let mut n = count_files(&srv.cache);
+                    for _ in 0..150 {
+                        if n <= before { break; }
+                        std::thread::sleep(Duration::from_millis(2));
+                        n = count_files(&srv.cache);
+                    }
+                    peak = peak.max(n.saturating_sub(before));
+                }
+            }
+            "wait100" => {
+                // a client that sends the head, waits for the interim response (up to 700 ms), then sends the body
+                let _ = client.set_read_timeout(Some(Duration::from_millis(700)));
+                for (bytes, _, _) in &specs {
+                    let he = bytes.windows(4).position(|w| w == b"\r\n\r\n").map_or(bytes.len(), |p| p + 4);
+                    if client.write_all(&bytes[..he]).is_err() { break; }
+                    if he < bytes.len() {
+                        let mut buf = [0u8; 256];
+                        let mut got = Vec::new();
+                        while !got.windows(4).any(|w| w == b"\r\n\r\n") {
+                            match client.read(&mut buf) { Ok(k) if k > 0 => got.extend_from_slice(&buf[..k]), _ => break }
+                        }
+                        let interim = got.starts_with(b"HTTP/1.1 100");
+                        transcript.extend_from_slice(&got);
+                        if !got.is_empty() && !interim { continue; } // final answer without the body: next request
+                        if client.write_all(&bytes[he..]).is_err() { break; }
+                    }
+                    let _ = client.set_read_timeout(Some(Duration::from_secs(8)));
+                    if !read_one_response(&mut client, &mut transcript) { break; }
+                    let _ = client.set_read_timeout(Some(Duration::from_millis(700)));
+                }
+            }
+            s if s.starts_with("busy") => {
+                // the upload is under way; then every thread of the blocking pool is taken by a slow handler of another
+                // connection; then the client abandons the upload: its file must go although no pool thread is free
+                let n: usize = s[4..].parse::<usize>().unwrap().min(all.len());
+                let _ = client.write_all(&all[..n]);
+                std::thread::sleep(Duration::from_millis(40));
+                { busy_gate().0.lock().unwrap().1 = false; }
+                let addr = srv.addr;
+                let gs: Vec<_> = (0..8).map(|_| std::thread::spawn(move || {
+                    let mut c = TcpStream::connect(addr).unwrap();
+                    let _ = c.write_all(b"GET /__gate HTTP/1.1\r\n\r\n");
+                    let _ = c.shutdown(Shutdown::Write);
+                    read_all(&mut c)
+                })).collect();
+                {
+                    let (m, cv) = busy_gate();
+                    let mut g = m.lock().unwrap();
+                    let deadline = std::time::Instant::now() + Duration::from_secs(5);
+                    while g.0 < 8 && std::time::Instant::now() < deadline { g = cv.wait_timeout(g, Duration::from_millis(50)).unwrap().0; }
+                }
+                let _ = client.shutdown(Shutdown::Write);
+                let mut left = count_files(&srv.cache);
+                for _ in 0..400 {
+                    if left <= before { break; }
+                    std::thread::sleep(Duration::from_millis(3));
+                    left = count_files(&srv.cache);
+                }
+                peak = left.saturating_sub(before);
+                { let (m, cv) = busy_gate(); m.lock().unwrap().1 = true; cv.notify_all(); }
+                for g in gs { let _ = g.join(); }
             }
             "par3" => {
                 // two more connections send the same bytes concurrently
@@ -311,14 +397,13 @@ pub fn case(ctx: &mut Ctx, tag: &str, small: &str, cache: &str, schedule: &str, 
             files_after = count_files(&srv.cache);
         }
         let mut log = shared().lock().unwrap().log.clone();
-        let _ = peak;
         if sched == "par3" {
             log.sort();
             if others.iter().any(|o| *o != transcript) {
                 transcript = b"TRANSCRIPTS-DIFFER".to_vec();
             }
         }
-        let e = if sched == "hold" { format!(" early={}", u8::from(early)) } else { String::new() };
+        let e = if sched == "hold" { format!(" early={}", u8::from(early)) } else if sched == "linger" || sched.starts_with("busy") { format!(" outlived={peak}") } else { String::new() };
         format!("calls={} wire={} files={}{e}", log.join("|"), enc(&transcript), files_after.saturating_sub(before))
     });
     ctx.emit(tag, &[small, cache, schedule, requests], &obs);
@@ -363,6 +448,31 @@ pub fn run(ctx: &mut Ctx) {
         let sched = match rng.below(8) { 0 | 1 => "single", 2 if total < 1500 => "bytes", 3 => "frag", 4 => "pingpong", 5 | 6 => cut.as_str(), _ => "single" };
         if ctx.mine(i) {
             case(ctx, "c04", &small.to_string(), if cache { "1" } else { "0" }, sched, &reqs.join(";"));
+        }
+    }
+    // a client that waits for `100 Continue` before sending the body (head first, body after the interim response)
+    let nw = if ctx.thorough() { 200 } else { 30 };
+    for i in 0..nw {
+        let k = rng.range(1, 3);
+        let mut reqs = Vec::new();
+        for j in 0..k {
+            let last = j + 1 == k;
+            let beh = match rng.below(6) { 0 => "n200".to_string(), 1 => "g3".to_string(), _ => "g1000000".to_string() };
+            let blen = *rng_pick(&[5usize, 120, 150, 3000]);
+            let framing = if last && rng.chance(1, 2) { "v" } else { "e" };
+            reqs.push(format!("POST:/w{j}:{framing}:{}:{beh}", body(&mut rng, blen)));
+        }
+        if ctx.mine(n + 5000 + i) {
+            case(ctx, "c04", "100", if rng.chance(5, 6) { "1" } else { "0" }, "wait100", &reqs.join(";"));
+        }
+    }
+    // long pipelines of short requests in one write: reads fill the connection buffer completely again and again
+    let nl = if ctx.thorough() { 40 } else { 6 };
+    for i in 0..nl {
+        let k = rng.range(200, 600);
+        let reqs: Vec<String> = (0..k).map(|j| format!("GET:/s{j}{}:n::n200", "y".repeat(rng.below(25) as usize))).collect();
+        if ctx.mine(n + 6000 + i) {
+            case(ctx, "c04", "100", "1", "single", &reqs.join(";"));
         }
     }
     // pipelines of padded requests (more than the 8 KiB connection buffer in flight), delivered in two writes with a pause,
@@ -459,6 +569,12 @@ pub fn run_c10(ctx: &mut Ctx) {
                     // cache dir removed
                     idx += 1;
                     if ctx.mine(idx) { case(ctx, "c10", "100", "2", "single", &req); }
+                    // the connection stays open after each answer: the file must be gone by then
+                    idx += 1;
+                    if ctx.mine(idx) && m == 1_000_000 && framing != "u" {
+                        let req2 = format!("POST:/r0:{framing}:{body}:g{m}{second};GET:/r1:n::n200;POST:/r2:{framing}:{body}:g{m};GET:/r3:n::n200");
+                        case(ctx, "c10", "100", "1", "linger", &req2);
+                    }
                 }
             }
             // client disconnects at offset classes of the upload
@@ -470,6 +586,13 @@ pub fn run_c10(ctx: &mut Ctx) {
                     let second = *rng.pick(&["", "-n200", "-p"]);
                     let req = format!("POST:/r0:{framing}:{body}:g1000000{second};GET:/r1:n::n200");
                     case(ctx, "c10", "100", "1", &format!("cut{cut}"), &req);
+                }
+                // … and the same abandonment while all handler threads are busy with other connections
+                idx += 1;
+                // (a body of undeclared length ends with the connection: that upload is complete, not abandoned)
+                if ctx.mine(idx) && framing != "u" && off >= 1 && off < len && (ctx.thorough() || off == 1 || off == len - 1) {
+                    let req = format!("POST:/r0:{framing}:{body}:g1000000;GET:/r1:n::n200");
+                    case(ctx, "c10", "100", "1", &format!("busy{cut}"), &req);
                 }
             }
         }
